@@ -717,7 +717,7 @@ export class NeverRuntype extends BaseRuntype {
     return "never";
   }
   schema(_ctx: SchemaContext): JSONSchema7 {
-    return annotateSchema(this.metadata, { anyOf: [] });
+    return annotateSchema(this.metadata, { not: {} });
   }
   validate(_ctx: ValidateContext, _input: unknown): boolean {
     return false;
@@ -1218,7 +1218,7 @@ export class TupleRuntype extends BaseRuntype {
     popPath(ctx);
     return annotateSchema(this.metadata, {
       type: "array",
-      prefixItems,
+      ...(prefixItems.length > 0 ? { prefixItems } : {}),
       items,
     } as any);
   }
